@@ -21,6 +21,9 @@ import (
 type sessCase struct {
 	ClientID string       `json:"client_id"`
 	Script   gwsim.Script `json:"script"`
+	// PreConnect: that many steps come before the CONNECT (QoS -1 publishes of a not yet connected
+	// client, authentication off); they are history, not judged by these checks (C07 judges them).
+	PreConnect int `json:"pre_connect,omitempty"`
 }
 
 var (
@@ -96,7 +99,21 @@ func genSession(t *rapid.T, o sessOpts) sessCase {
 			}
 		}
 	}
-	sc.Steps = connectSteps(sc.Cfg, c.ClientID, 60)
+	if !sc.Cfg.Auth && rapid.IntRange(0, 4).Draw(t, "preconnect") == 0 {
+		// a QoS -1 PUBLISH on a predefined or short topic before the CONNECT: the gateway does not know
+		// the client ID yet when it resolves the predefined ID
+		for j := rapid.IntRange(1, 2).Draw(t, "npre"); j > 0; j-- {
+			p := snref.Pkt{Type: snref.PUBLISH, QoS: 3, Data: []byte("pre")}
+			if rapid.Bool().Draw(t, "pre_short") {
+				p.TIT, p.TopicID = snref.TITShort, snref.ShortID("ab")
+			} else {
+				p.TIT, p.TopicID = snref.TITPredefined, rapid.SampledFrom([]uint16{1, 2, 3, 4, 5, 0xfffe}).Draw(t, "prepid")
+			}
+			sc.Steps = append(sc.Steps, gwgen.SN(p))
+			c.PreConnect++
+		}
+	}
+	sc.Steps = append(sc.Steps, connectSteps(sc.Cfg, c.ClientID, 60)...)
 	n := rapid.IntRange(1, o.maxSteps).Draw(t, "nsteps")
 	var subMids []uint16
 	nextName := 0
@@ -444,7 +461,7 @@ func TestC01(t *testing.T) {
 				if e.Dir == gwsim.EV && e.What == "END" {
 					break
 				}
-				if e.Dir == gwsim.CG && e.SN != nil && e.SN.Type == snref.PUBLISH && !e.Auto && !seen[e.Step] {
+				if e.Dir == gwsim.CG && e.SN != nil && e.SN.Type == snref.PUBLISH && !e.Auto && !seen[e.Step] && e.Step >= c.PreConnect {
 					seen[e.Step] = true
 					p := *e.SN
 					name, st := k.resolve(p.TIT, p.TopicID, false)
